@@ -1,6 +1,7 @@
 // K2 harnesses over the real src/ecs/spawned_syscall.rs.
 use bevy::ecs::system::{Local, Resource};
-use bevy::world::DespawnCommand;
+pub struct Suicide(pub Entity);
+impl Command for Suicide { fn apply(self, w: &mut World) { w.m_despawn_noflush(self.0); } }
 
 pub struct Hits(pub u8);
 impl Resource for Hits {}
@@ -43,7 +44,7 @@ fn spawned_syscall_state_and_effects()
 
 pub struct Me(pub Entity);
 impl Resource for Me {}
-fn suicidal(In(x): In<u8>, mut c: Commands, me: bevy::ecs::system::Res<Me>) -> u8 { c.queue(DespawnCommand(me.0)); c.queue(Bump); x + 1 }
+fn suicidal(In(x): In<u8>, mut c: Commands, me: bevy::ecs::system::Res<Me>) -> u8 { c.queue(Suicide(me.0)); c.queue(Bump); x + 1 }
 
 /// C17 / C18: a spawned system that despawns its own entity during the call still returns its output.
 #[kani::proof]
@@ -53,7 +54,7 @@ fn suicidal(In(x): In<u8>, mut c: Commands, me: bevy::ecs::system::Res<Me>) -> u
 fn spawned_syscall_self_despawn_returns_output()
 {
     let mut world = World::new();
-    world.m_apply_table::<(DespawnCommand, Bump)>();
+    world.m_apply_table::<(Suicide, Bump)>();
     world.m_drop_table::<bevy::model::cell::LeakAll>();      // the emptied SpawnedSystem component is leaked, its drop is not the subject
     world.insert_resource(Hits(0));
     let id = spawn_system(&mut world, suicidal);
